@@ -698,6 +698,9 @@ def check(ctx):
     rule_env(ctx)
     rule_subclass_fields(ctx)
     rule_axes_growth(ctx)
+    # the dims setter renames in bulk: swaps must not collapse (shared with C13)
+    from . import c13
+    c13.rule_rename_loop(ctx, 'R4', ctx.fn('dimarray.core.bases.AbstractHasAxes._set_dims'), '_set_dims (dims setter)')
     ctx.not_decided += ['equality of arrays built from different argument forms (value level)',
                         'staleness of a MultiAxis label cache caused by another array mutating a shared member axis',
                         'Axes.from_dict ordering by shape (value level)']
